@@ -15,7 +15,7 @@ from props import C11_export as E
 THEOREMS = ['C11_table_roundtrip', 'C11_token_numbering_injective', 'C11_memo_roundtrip', 'C11_fields_restored',
             'C11_options_partition', 'C11_load_save', 'C11_saveload', 'C11_cache', 'C11_load_override',
             'C11_load_rejects', 'C11_standalone_partial', 'C11_flags_list_changes_unless_test',
-            'C11_flags_test_preserved', 'C11_example']
+            'C11_flags_test_preserved', 'C11_wf_check_sound', 'C11_example']
 GEN_DEPS = ['SerializeFields']
 RULE = ('fixed corpus of LALR grammars (imports from common.lark, templates, rule/terminal priorities, 120 terminals, '
         'regex and string flags, bytes mode, placeholders, aliases/inlining, several start symbols, lark.lark) plus '
@@ -248,6 +248,12 @@ COMMENT: /#[^\n]*/
 NL: /\r?\n/
 %ignore /[ \t]+/
 '''
+G_REGEXMOD = r'''
+start: (WORD | NUM)+
+WORD: /\p{Lu}\p{Ll}*/
+NUM: /\p{Nd}+/
+%ignore " "
+'''
 G_UNLESS = r'''
 start: (KW | OTHER | NAME | NUM)+
 KW: "while"
@@ -304,6 +310,7 @@ def corpus():
     c.append(('multistart', G_MULTISTART, [{}], ['x y z ( x y )', 'x', 'x z ( x z', 'y , z', 'z ( x y ) , y', ','], ['a', 'd']))
     c.append(('lines', G_LINES, [{}], ['ab cd\n# c\nef\n', 'ab\r\ncd\n', 'ab\n\ncd', '# only', 'a\n b \n#\n?'], ['start']))
     c.append(('unless', G_UNLESS, [{}], ['while for whiles 12 x', 'for while', 'while!'], ['start']))
+    c.append(('regexmod', G_REGEXMOD, [{'regex': True}], ['Ab Cde 12', 'Ab cd', 'Xy 7Zz', 'a'], ['start']))
     c.append(('many', g_many_terminals(), [{}], ['kw0x kw119x abc kw12x 77', 'kw5x kw5 kw55x', 'kw1x ?', 'kw118xkw3x'], ['start']))
     n = 120
     k = n // 3
@@ -754,11 +761,11 @@ def correspond(ctx):
     rng = ctx.rng
     relevant, notread = parse_decl('Relevant'), parse_decl('NotRead')
     widen = 2 if ctx.widen else 1
-    n_opt = ctx.scale(2, 5) * widen
-    n_rand = ctx.scale(14, 150) * widen
+    n_opt = ctx.scale(2, 4) * widen
+    n_rand = ctx.scale(14, 100) * widen
     n_mut = ctx.scale(2, 5)
-    n_sa = ctx.scale(8, 60) * widen          # stand-alone modules (each plain + compress)
-    n_coq = ctx.scale(14, 120) * widen
+    n_sa = ctx.scale(8, 30) * widen          # stand-alone modules (each plain + compress)
+    n_coq = ctx.scale(14, 60) * widen
 
     combos = []        # (name, grammar, opts, probes)
     for name, g, bases, samples, starts in corpus():
@@ -841,7 +848,7 @@ def correspond(ctx):
             from lark import Lark
             isb = bool(opts.get('use_bytes'))
             kw_choices = [{'propagate_positions': not opts.get('propagate_positions', False)}, {'g_regex_flags': 2},
-                          {'debug': True}, {'tree_class': None}, {'use_bytes': not isb}]
+                          {'debug': True}, {'tree_class': None}, {'use_bytes': not isb}, {'regex': not opts.get('regex', False)}]
             for kw in ([rng.choice(kw_choices)] if not ctx.widen else kw_choices):
                 o2 = dict(opts)
                 o2.update(kw)
